@@ -1,9 +1,178 @@
 import UF.Driver.Decode
-/- Ops of work group I3 (see notes/AGENT_GUIDE.md). Return `none` for ops of other groups. -/
+import UF.Driver.Ops.GroupB
+import UF.Driver.Ops.GroupD
+import UF.Driver.Ops.GroupE
+import UF.Driver.Ops.GroupI1
+import UF.Compose2.MatchFull
+import UF.Compose2.NewRuleFull
+import UF.Compose3.WebTop
+import UF.Compose3.CosTop
+import UF.Compose3.CosText
+import UF.Compose3.DnsTop
+/- Ops of work group I3 (see notes/AGENT_GUIDE.md). Return `none` for ops of other groups.
+
+   The ops of this file run the TOP-LEVEL composed models from RAW inputs: list bytes + URL strings (or DNS
+   request fields) → `engineMatchRequest` / `dnsEngineMatchRequest`.  The only Go-supplied tables are
+   `publicsuffix` and `netip` (addr / prefix): the pattern oracle is group I2's `modelPatD`, `$dnsrewrite`
+   values go through group H's `loadDNSRewrite`, the shortcut of `/regex/` rules through `modelRegexpShortcut`,
+   the request fields through group H's `NewRequest` / group F's pool refill. -/
+namespace UF.Ops.I3
+open UF UF.B UF.Storage UF.Compose UF.Compose3 UF.I2
+
+/-- The oracles: psl / addr / prefix tables; pattern := the model. -/
+def mkExt3 (psl : List (Bytes × (Bytes × Bool))) (addrs : List (Bytes × Option Addr))
+    (prefixes : List (Bytes × Option Prefix)) : Ext :=
+  withModelPat { mkExt psl addrs [] with parsePrefix := tableLookup prefixes none }
+
+/-- The parser parameters, all modelled; `$dnsrewrite` values outside the domain of group H's ASCII model of
+    `ToUpper`/`EqualFold` are answered by `dflt` (run with two defaults: if the parsed lists differ, such a
+    value mattered and the line is out of domain). -/
+def pxProbe (ext : Ext) (dflt : Option DnsRewrite) : E.ParseExt :=
+  let px := fullParseExt ext reShortcutM
+  { px with loadDNSRewrite := fun v => if H.dnsRewriteInDomain v then px.loadDNSRewrite v else dflt }
+
+/-- Are the parsed lists inside the domain on which the parser models are exact? -/
+def listsInDomain (ext : Ext) (lists : List RList) : Bool :=
+  let a := specRules (pxProbe ext none) lists
+  let b := specRules (pxProbe ext (some {})) lists
+  a == b && UF.Ops.I1.rulesInDomain a &&
+    a.all (fun r => ruleShortcutInDomain (.ok (some r)))
+
+/-- Is `Match` decided by the models for every network rule of the lists on this request? -/
+def requestDecided (ext : Ext) (rules : List NetRule) (q : Request) : Bool :=
+  rules.all fun r => matchDecided ext r q
+
+def clsLetter : VClass → String
+  | .block => "b" | .allow => "a" | .none => "n"
+
+def optText : Option NetRule → String
+  | none => "_"
+  | some r => outBytes r.text
+
+/-- The named modifiers as WRITTEN in the rule text (`parseRuleText` splits pattern and options;
+    `textCosMods` cuts the options at unescaped commas and compares the names literally — theorem `c16_text`). -/
+def textMods (t : Bytes) : Bool × List CosMod :=
+  match E.parseRuleText t with
+  | .ok (_, opts, wl) => (wl, textCosMods opts)
+  | .error _ => (false, [])
+
+def outReqFields (q : Request) : String :=
+  outBytes q.hostname ++ "," ++ outBytes q.domain ++ "," ++ outBytes q.sourceHostname ++ "," ++
+    outBytes q.sourceDomain ++ "," ++ outBool q.thirdParty
+
+def outWeb (cls : VClass) (basic doc : Option NetRule) (opt : CosOpt) (sel : List Bytes × List Bytes)
+    (q : Request) : String :=
+  clsLetter cls ++ "|" ++ optText basic ++ "|" ++ toString opt.toNat ++ "|" ++ optText doc ++ "|" ++
+    UF.Ops.B.outSel sel ++ "|" ++ outReqFields q
+
+/-- `i3.web ((id ign content)…) <url> <src> <type> <cosHost> psl addrs prefixes`
+    model = `engineMatchRequest` (NewRequest → MatchAll twice → NewMatchingResult) + `GetCosmeticOption` +
+    `engineCosmeticResult`; answer `class|basicText|option|documentText|(generic)|(specific)|hostname,domain,srcHostname,srcDomain,thirdParty`.
+    spec = class: `classWeb` over the matching lines / referrer matching lines (theorem `c06_top`);
+    basic / document text: the model's, provided it is one of the matching lines (else `not-a-line`);
+    option: `specCosmeticOption` of the modifiers WRITTEN in the basic rule's text (`c16_top`);
+    selectors: `specCosmeticResult` for that option (`c16_top_cosmetic`); request fields: the reference request
+    of C17 (`refRequest`: URL-grammar host, public suffix plus one label, third-party) when the URLs are inside
+    the grammar (`c17_top_web`), the model's otherwise. -/
+def opWeb (args : List W) : String :=
+  match args with
+  | [ls, url, src, ty, host, psl, addrs, prefixes] =>
+    match UF.Ops.decRLists false ls, url.bytes?, src.bytes?, ty.nat?, host.bytes?, decPslTable psl,
+        decAddrTable addrs, UF.Ops.decPrefixTable prefixes with
+    | some lists, some url, some src, some ty, some host, some psl, some addrs, some prefixes =>
+      if !UF.Ops.I1.storageOKB lists then "ood ood" else
+      let ext := mkExt3 psl addrs prefixes
+      if !listsInDomain ext lists then "ood ood" else
+      -- `strings.ToLower` of the URL is modelled on ASCII
+      if !Bytes.isAscii (url.take Facts.maxURLLength) || !Bytes.isAscii (src.take Facts.maxURLLength) then "ood ood" else
+      let px := pxProbe ext none
+      let q := requestOf ext url src ty
+      let sq := sourceRequestOf ext q
+      let nets := allNet px lists
+      if !requestDecided ext nets q || (q.sourceURL != [] && !requestDecided ext nets sq) then "ood ood" else
+      let st : RuleStorage := ⟨lists, []⟩
+      let m := engineMatchRequest UF.Ops.driverIO px lists st [] [] url src ty
+      let opt := getCosmeticOption m.basicRule
+      let model := outWeb (classOf (getBasicResult m)) m.basicRule m.documentRule opt
+        (engineCosmeticResult px lists host opt) q
+      let ml := matchingLines px lists q
+      let sml := sourceMatchingLines px lists q
+      let basicOK := match m.basicRule with
+        | none => true
+        | some b => ml.any (fun r => r.text == b.text)
+      let docOK := match m.documentRule with
+        | none => true
+        | some d => sml.any (fun r => r.text == d.text)
+      if !basicOK || !docOK then model ++ " not-a-line" else
+      let specOpt := match m.basicRule with
+        | none => specCosmeticOption false []
+        | some b => let (wl, mods) := textMods b.text; specCosmeticOption wl mods
+      let spec := outWeb (classWeb ml sml) m.basicRule m.documentRule specOpt
+        (specCosmeticResult px lists host specOpt) ((H.refRequest ext url src ty).getD q)
+      model ++ " " ++ spec
+    | _, _, _, _, _, _, _, _ => "bad-decode"
+  | _ => "bad-arity"
+
+/-- DNS request: `(D hostname dnsType clientName clientIP (tags))`. -/
+def decDReq (w : W) : Option DReq :=
+  match w with
+  | .l [.a "D", h, t, cn, cip, tags] => do
+    pure { hostname := ← h.bytes?, dnsType := ← t.nat?, clientName := ← cn.bytes?, clientIP := ← decAddr? cip,
+           sortedTags := ← tags.bytesList? }
+  | _ => none
+
+def outDnsTop (r : DnsResult) (rewrites : Option (List NetRule)) : String :=
+  let cls := match r.networkRule with
+    | some b => (if b.whitelist then "a" else "b") ++ (if b.important then "!" else "")
+    | none =>
+      if r.matched then "h"
+      else if (rewrites.getD []).length > 0 then "r"
+      else if r.networkRules.length > 0 then "m" else "n"
+  let rw := match rewrites with
+    | none => "PANIC"
+    | some l => UF.Ops.B.outTextSet (l.map (·.text))
+  cls ++ "|" ++ UF.Ops.B.outTextSet (r.networkRules.map (·.text)) ++ "|" ++ UF.Ops.B.outHostSet r.v4 ++ "|" ++
+    UF.Ops.B.outHostSet r.v6 ++ "|" ++ outBool r.matched ++ "|" ++ rw
+
+/-- A pooled request full of stale data: the refill must overwrite all of it (`c02_top_pool`). -/
+def staleRequest : Request :=
+  { url := lit "http://stale.example/x", urlLower := lit "http://stale.example/x", hostname := lit "stale.example",
+    domain := lit "stale.example", sourceURL := lit "http://src.example/", sourceHostname := lit "src.example",
+    sourceDomain := lit "src.example", sortedTags := [lit "a", lit "device_pc"], reqType := 4, dnsType := 28,
+    thirdParty := true, isHostnameRequest := false, clientName := lit "laptop",
+    clientIP := some { is4 := true, val := 167772165 } }
+
+/-- `i3.dns ((id ign content)…) (D hostname dnsType clientName clientIP (tags)) psl addrs prefixes`
+    model = `dnsEngineMatchRequest` on a STALE pooled request + `dnsEffectiveRewrites`;
+    spec = `specDnsTop` (reference scan for the request the fields alone describe) + the reference of C09 over
+    its network rules.  Answer `class|(netTexts)|(v4)|(v6)|matched|(effective rewrite texts)`. -/
+def opDns (args : List W) : String :=
+  match args with
+  | [ls, d, psl, addrs, prefixes] =>
+    match UF.Ops.decRLists false ls, decDReq d, decPslTable psl, decAddrTable addrs, UF.Ops.decPrefixTable prefixes with
+    | some lists, some d, some psl, some addrs, some prefixes =>
+      if !UF.Ops.I1.storageOKB lists then "ood ood" else
+      let ext := mkExt3 psl addrs prefixes
+      if !listsInDomain ext lists then "ood ood" else
+      let px := pxProbe ext none
+      let q := dnsRequestOf ext default d
+      if !requestDecided ext ((allNet px lists).filter dnsApplicable) q then "ood ood" else
+      let st : RuleStorage := ⟨lists, []⟩
+      let res := dnsEngineMatchRequest UF.Ops.driverIO px lists st [] staleRequest d
+      let ref := specDnsTop px lists d
+      outDnsTop res (dnsEffectiveRewrites res) ++ " " ++
+        outDnsTop ref (some (specRewrites (dnsRewritesAll ref.networkRules)))
+    | _, _, _, _, _ => "bad-decode"
+  | _ => "bad-arity"
+
+end UF.Ops.I3
+
 namespace UF.Ops
 
 def dispatchI3 (op : String) (args : List W) : Option String :=
-  match op, args with
-  | _, _ => none
+  match op with
+  | "i3.web" => some (I3.opWeb args)
+  | "i3.dns" => some (I3.opDns args)
+  | _ => none
 
 end UF.Ops
